@@ -61,7 +61,7 @@ def main(argv=None):
     specs = []
     for m in mods:
         mod = importlib.import_module(m)
-        for s in mod.SPECS:
+        for s in getattr(mod, "SPECS", []):
             if args.only and s.name != args.only:
                 continue
             specs.append(s)
